@@ -50,7 +50,7 @@ def script(draw):
             pro += [decl] + ([use] if draw(st.booleans()) else [])
         expect.add("Servo")
     for i in range(draw(st.integers(0, 2))):
-        pro.append(f"lp{i} = LCD(rs=12, en=11, d4=5, d5=4, d6=3, d7=2" + draw(st.sampled_from([")", ", cols=20, rows=4)", ", backlight_pin=10)"])))
+        pro.append(f"lp{i} = LCD(rs=12, en=11, d4=5, d5=4, d6=3, d7=2" + draw(st.sampled_from([")", ", cols=20, rows=4)", ", backlight_pin=10)", ", rw=10)", ", rw=10, cols=20, rows=4)", ", rw=7, backlight_pin=9)"])))
         if draw(st.booleans()):
             pro.append(f"lp{i}.write(0, 0, 'hi')")
         expect.add("LiquidCrystal")
